@@ -1,5 +1,6 @@
 SPECIFICATION Spec
 CONSTANTS
+  Pre = 0
   NSamples = 3
   FragSNs = {2}
   NF = 2
